@@ -36,22 +36,31 @@ def directed(tier):
         out.append(_mk("find", 2, "real", 1, 0.0, [0.002] * 3, {"switch_pct": 30}, {"seg": "whole"}, pre=pre))
     for j in range(0, 8):
         out.append(_mk("acc_send", 0, "real", 0, 0.0005 * j, [], {"switch_pct": 30}, {"seg": "whole"}, acc_delay=0.001))
+    # the acceptor-side request is answered (Success / Warning / Failure statuses) well before the release request arrives
+    for what in ("echo", "ner"):
+        for status in (0x0000, 0x0110, 0x0113, 0x0116, 0xC000, 0xB000, 0x0001):
+            out.append(_mk("acc_send", 0, "real", 0, 0.02, [], {"switch_pct": 30}, {"seg": "whole"}, acc_delay=0.0, acc_what=what, acc_status=status))
     for k in range(0, 4):
         for j in range(0, 2 * k + 3):
             out.append(_mk("find", k, "raw", 0, 0.0015 * j, [0.003] * (k + 1), {"switch_pct": 30}, {"seg": "whole"}))
     out.append(_mk("idle", 0, "real", 0, 0.0, [], {"switch_pct": 30}, {"seg": "whole"}))
     out.append(_mk("idle", 0, "raw", 0, 0.01, [], {"switch_pct": 30}, {"seg": "whole"}))
+    for cap in (128, 512):
+        for j in range(0, 4):
+            out.append(_slow_reader(_mk("find", 4, "raw", 0, 0.002 * j, [0.001] * 5, {"switch_pct": 30}, {"seg": "whole"}), cap, 0.15, 2.0))
     out.append(_mk("echo", 0, "real", 0, 0.0, [], {"switch_pct": 30}, {"seg": "whole"}))
     return out
 
 
-def _mk(op, k, peer, consume, delay, sleeps, sched, net, pre=(), acc_delay=0.0):
+def _mk(op, k, peer, consume, delay, sleeps, sched, net, pre=(), acc_delay=0.0, acc_what="echo", acc_status=0x0000):
     d = {"op": op, "k": k, "peer": peer, "consume": consume, "delay": delay, "sleeps": sleeps,
          "sched": sched, "net": net}
     if pre:
         d["pre"] = list(pre)
     if op == "acc_send":
         d["acc_delay"] = acc_delay
+        d["acc_what"] = acc_what      # echo | ner (N-EVENT-REPORT, the storage-commitment pattern)
+        d["acc_status"] = acc_status  # status the requestor's handler answers the local request with
     return d
 
 
@@ -66,7 +75,20 @@ def gen(rng, idx, tier):
     if peer == "real" and rng.randrange(3) == 0:
         pre = [rng.choice(["echo", "store", "find_full"]) for _ in range(rng.randrange(1, 3))]
     acc_delay = round(rng.choice([0.0, 0.0005, 0.001, 0.003]) * rng.random(), 6)
-    return _mk(op, k, peer, consume, round(delay, 6), sleeps, C.gen_sched(rng), C.gen_net(rng), pre=pre, acc_delay=acc_delay)
+    sc = _mk(op, k, peer, consume, round(delay, 6), sleeps, C.gen_sched(rng), C.gen_net(rng), pre=pre, acc_delay=acc_delay,
+             acc_what=rng.choice(["echo", "ner"]), acc_status=rng.choice([0x0000, 0x0000, 0x0110, 0x0113, 0xC000, 0xB000, 0x0001]))
+    if peer == "raw" and op == "find" and k >= 2 and rng.randrange(2) == 0:
+        _slow_reader(sc, rng.choice([128, 256, 512]), rng.choice([0.1, 0.2]), rng.choice([1.5, 3.0]))
+    return sc
+
+
+def _slow_reader(sc, cap, acse, factor):
+    """The releasing peer does not read for `factor` x the acceptor's ACSE timeout while the acceptor still has
+    responses to write that do not fit the connection's buffering (flow control): nothing times out (the network
+    timeout is longer), so once the peer reads again everything, including the A-RELEASE-RP, must arrive."""
+    sc["slow_reader"] = {"cap": cap, "acse": acse, "pause": round(acse * factor, 4)}
+    sc["net"] = dict(sc["net"], pipe_capacity=cap)
+    return sc
 
 
 def shrink(sc):
@@ -146,13 +168,22 @@ def execute(sc, ctx):
 
     def handle_echo(event):
         sim.record("handler", op="echo", phase="start", assoc=ctx.label(event.assoc))
-        return 0x0000
+        return sc.get("acc_status", 0x0000) if not event.assoc.is_acceptor else 0x0000
 
-    scp = ctx.make_ae("SCP", acse=total + 1, dimse=total + 1, network=total + 2)
+    def handle_ner(event):
+        sim.record("handler", op="ner", phase="start", assoc=ctx.label(event.assoc))
+        return sc.get("acc_status", 0x0000), None
+
+    sr = sc.get("slow_reader")
+    if sr:
+        scp = ctx.make_ae("SCP", acse=sr["acse"], dimse=total + sr["pause"] + 1, network=total + sr["pause"] + 2)
+    else:
+        scp = ctx.make_ae("SCP", acse=total + 1, dimse=total + 1, network=total + 2)
     scp.add_supported_context(Verification, scu_role=True, scp_role=True)
     scp.add_supported_context(C.PR_FIND)
     scp.add_supported_context(C.PR_GET)
     scp.add_supported_context(C.PR_MOVE)
+    scp.add_supported_context(C.STORAGE_COMMIT)
     scp.add_supported_context(C.CT, scu_role=True, scp_role=True)
     scp.add_requested_context(C.CT)
     ctx.start_server(scp, handlers=[(evt.EVT_C_FIND, handle_find), (evt.EVT_C_GET, handle_get), (evt.EVT_C_MOVE, handle_move),
@@ -175,6 +206,8 @@ def execute(sc, ctx):
         ctx.sleep(sc["delay"])
         sim.record("release_sent", by="raw")
         p.send(W.release_rq())
+        if sr:
+            ctx.sleep(sr["pause"])     # not reading: the acceptor's writes pile up against the flow-control limit
         got = p.recv_until((6, 7), timeout=total + 0.5)
         ctx.obs["raw_got"] = got if isinstance(got, str) else got[0]
         p.close()
@@ -187,10 +220,12 @@ def execute(sc, ctx):
     scu.add_requested_context(C.PR_GET)
     scu.add_requested_context(C.PR_MOVE)
     scu.add_requested_context(C.CT)
+    scu.add_requested_context(C.STORAGE_COMMIT)
     roles = [build_role(C.CT, scu_role=True, scp_role=True)]
     if sc["op"] == "acc_send":
         roles.append(build_role(C.VERIFICATION, scu_role=True, scp_role=True))
-    assoc = ctx.associate(scu, handlers=[(evt.EVT_C_STORE, handle_store), (evt.EVT_C_ECHO, handle_echo)], ext_neg=roles)
+    assoc = ctx.associate(scu, handlers=[(evt.EVT_C_STORE, handle_store), (evt.EVT_C_ECHO, handle_echo),
+                                         (evt.EVT_N_EVENT_REPORT, handle_ner)], ext_neg=roles)
     ctx.obs["established"] = assoc.is_established
     if not assoc.is_established:
         return
@@ -212,7 +247,10 @@ def execute(sc, ctx):
             a = [a for a in scp.active_associations][0]
             sim.record("acc_send", phase="call")
             try:
-                st = a.send_c_echo()
+                if sc.get("acc_what", "echo") == "ner":
+                    st, _reply = a.send_n_event_report(C.small_ds(3), 1, C.STORAGE_COMMIT, "1.2.840.10008.1.20.1.1")
+                else:
+                    st = a.send_c_echo()
                 sim.record("acc_send", phase="return", res=repr(getattr(st, "Status", None) if st is not None and "Status" in st else "empty"))
             except RuntimeError as e:
                 sim.record("acc_send", phase="return", res="raised:RuntimeError")
@@ -268,7 +306,7 @@ def check(sc, r):
     if ab is not None:
         return out  # pynetdicom itself aborted: outside the property
     phase = _phase(sc, r)
-    where = "%s/%s" % (sc["op"], ("subop-pending" if phase.get("subop_pending") else ("local-send" if phase.get("local_send") else "handler")) if phase["active"] else "idle")
+    where = "%s/%s" % (sc["op"] + ("-" + sc.get("acc_what", "echo") if sc["op"] == "acc_send" else ""), ("subop-pending" if phase.get("subop_pending") else ("local-send" if phase.get("local_send") else "handler")) if phase["active"] else "idle")
     if rp is None:
         out.append(C.v("release-answered", "C07/no-release-rp/%s" % where,
                        "A-RELEASE-RQ delivered (seq %s, phase %s) but no A-RELEASE-RP written; acceptor events: released=%d aborted=%d" % (
